@@ -405,6 +405,12 @@ where
                 }
                 Err(e) => {
                     *self = Self::Error;
+                    if e.kind() == io::ErrorKind::UnexpectedEof {
+                        // The source ended inside the encrypted data. Readers on top of this one
+                        // take `UnexpectedEof` for the end of the decrypted data (and would then
+                        // ask for the source, which is gone), so it is not passed on as such.
+                        return Err(io::Error::new(io::ErrorKind::InvalidData, e));
+                    }
                     return Err(e);
                 }
             },
